@@ -1,4 +1,5 @@
 import NucleoVerif.Props.C01
+import NucleoVerif.Props.C05_Unicode
 import NucleoVerif.Lemmas.DPWindow
 /-! # C04 (companion file) — the prefilter window loses nothing against the full matrix
 
@@ -227,5 +228,208 @@ theorem C04_window_is_full_matrix (cfg : Cfg) (ext : Ext) (hrep : Rep) (h : List
       obtain ⟨x, hx, e'⟩ := mem_cols_ch cfg ext hrep h e h.length c hc
       rw [e']
       exact hpost x (List.mem_of_mem_take hx)
+
+/-! ### the windows the prefilters choose -/
+
+theorem findIdx_reverse_none_after (p : Nat → Bool) (l : List Nat) (k : Nat) (hk : findIdx p l.reverse = some k) :
+    ∀ x ∈ l.drop (l.length - k), p x = false := by
+  obtain ⟨hlt, _, hbefore⟩ := findIdx_some p l.reverse k hk
+  intro x hx
+  apply hbefore x
+  rw [List.length_reverse] at hlt
+  -- the last k elements of l are the first k of its reverse
+  have : l.reverse.take k = (l.drop (l.length - k)).reverse := by
+    rw [List.reverse_drop]
+    congr 1
+    omega
+  rw [this]
+  exact List.mem_reverse.mpr hx
+
+/-- **code-point haystacks**: the window `prefilter_non_ascii` hands to the optimal matcher gives the full-matrix result -/
+theorem C04_window_lossless_unicode (cfg : Cfg) (ext : Ext) (h : List Nat) (n0 n1 : Nat) (ns : List Nat) (start e : Nat)
+    (hpp : cfg.preferPrefix = false)
+    (hp : prefilterNonAscii cfg h (n0 :: n1 :: ns) false = some (start, e)) :
+    optimalDP cfg ext .unicode h (n0 :: n1 :: ns) start e = optimalDP cfg ext .unicode h (n0 :: n1 :: ns) 0 h.length := by
+  have hspec := prefilterNonAscii_spec cfg h n0 n1 ns
+  rw [hp] at hspec
+  simp only at hspec
+  obtain ⟨h1, h2, _, _⟩ := hspec
+  have hstart := prefilterNonAscii_start cfg h n0 (n1 :: ns) start e hp
+  obtain ⟨_, _, hbefore⟩ := findIdx_some _ _ start hstart
+  have hlast : ∃ nlast, (n0 :: n1 :: ns).getLast? = some nlast := by
+    cases hh : (n0 :: n1 :: ns).getLast? with
+    | none => simp at hh
+    | some v => exact ⟨v, rfl⟩
+  obtain ⟨nlast, hl⟩ := hlast
+  have hlen : (n0 :: n1 :: ns).length = ns.length + 2 := by simp
+  refine C04_window_is_full_matrix cfg ext .unicode h n0 (n1 :: ns) start e nlast hpp (by omega) h2 hl ?_ ?_
+  · intro x hx
+    have hx' : x ∈ (h.take (h.length - (n0 :: n1 :: ns).length + 1)).take start := by
+      rw [List.take_take]
+      have : min start (h.length - (n0 :: n1 :: ns).length + 1) = start := by omega
+      rw [this]; exact hx
+    have := hbefore x hx'
+    simp only [decide_eq_false_iff_not] at this
+    show cnormChar cfg x ≠ n0
+    rw [cnormChar_eq]; exact this
+  · -- the end of the window is one past the last occurrence of the last needle character
+    unfold prefilterNonAscii at hp
+    simp only at hp
+    cases hf : findIdx (fun c => decide (normChar cfg c = n0)) (h.take (h.length - (n0 :: n1 :: ns).length + 1)) with
+    | none => rw [hf] at hp; cases hp
+    | some st =>
+      rw [hf] at hp
+      simp only [Bool.false_eq_true, if_false] at hp
+      cases hr : findIdx (fun c => decide (normChar cfg c = (n0 :: n1 :: ns).getLast?.getD n0)) (h.drop (st + 1)).reverse with
+      | none => rw [hr] at hp; cases hp
+      | some p =>
+        rw [hr] at hp
+        simp only at hp
+        split at hp
+        · cases hp
+        · have hse : st = start ∧ h.length - p = e := by
+            have := Option.some.inj hp
+            exact ⟨congrArg Prod.fst this, congrArg Prod.snd this⟩
+          obtain ⟨rfl, rfl⟩ := hse
+          have hafter := findIdx_reverse_none_after _ (h.drop (st + 1)) p hr
+          have hpl : p < (h.drop (st + 1)).length := by
+            have := (findIdx_some _ _ p hr).1; rwa [List.length_reverse] at this
+          intro x hx
+          have hx' : x ∈ (h.drop (st + 1)).drop ((h.drop (st + 1)).length - p) := by
+            rw [List.drop_drop]
+            rw [List.length_drop] at hpl ⊢
+            have : st + 1 + (h.length - (st + 1) - p) = h.length - p := by omega
+            rw [this]; exact hx
+          have := hafter x hx'
+          simp only [decide_eq_false_iff_not] at this
+          rw [hl] at this
+          show cnormChar cfg x ≠ nlast
+          rw [cnormChar_eq]; exact this
+
+/-- **ASCII haystacks**: the window `prefilter_ascii` hands to the optimal matcher gives the full-matrix result
+    (the needle already normalized, as the matcher receives it) -/
+theorem C04_window_lossless_ascii (cfg : Cfg) (ext : Ext) (h : List Nat) (n0 : Nat) (ns : List Nat) (start ge e : Nat)
+    (hpp : cfg.preferPrefix = false) (hasc : ∀ c ∈ h, c < 128) (hn : ∀ c ∈ n0 :: ns, normAscii cfg c = c)
+    (hp : prefilterAscii cfg h (n0 :: ns) false = some (start, ge, e)) :
+    optimalDP cfg ext .ascii h (n0 :: ns) start e = optimalDP cfg ext .ascii h (n0 :: ns) 0 h.length := by
+  obtain ⟨_, hspec⟩ := prefilterAscii_spec cfg h n0 ns false hn
+  obtain ⟨s1, s2, s3, _, _⟩ := hspec start ge e hp
+  have hlast : ∃ nlast, (n0 :: ns).getLast? = some nlast := by
+    cases hh : (n0 :: ns).getLast? with
+    | none => simp at hh
+    | some v => exact ⟨v, rfl⟩
+  obtain ⟨nlast, hl⟩ := hlast
+  have hnl : normAscii cfg nlast = nlast := hn nlast (List.mem_of_getLast? hl)
+  have hcn : ∀ x ∈ h, cnorm cfg .ascii x = normAscii cfg x := fun x hx => C16_cnorm_eq_norm cfg .ascii x (fun _ => hasc x hx)
+  unfold prefilterAscii at hp
+  simp only at hp
+  cases hf : findIdx (asciiEq cfg.ignoreCase n0) (h.take (h.length - (n0 :: ns).length + 1)) with
+  | none => rw [hf] at hp; cases hp
+  | some st =>
+    rw [hf] at hp
+    simp only at hp
+    cases hg : asciiGreedyScan cfg.ignoreCase ns (h.drop (st + 1)) (st + 1) with
+    | none => rw [hg] at hp; cases hp
+    | some gr =>
+      obtain ⟨ge', rest⟩ := gr
+      rw [hg] at hp
+      simp only [Bool.false_eq_true, if_false] at hp
+      have hinj := Option.some.inj hp
+      have e1 : st = start := congrArg Prod.fst hinj
+      have e2 : ge' = ge := congrArg (fun t => t.2.1) hinj
+      have e3 : (ge' + match rfindIdx (asciiEq cfg.ignoreCase ((n0 :: ns).getLast?.getD n0)) rest with | some i => i + 1 | none => 0) = e :=
+        congrArg (fun t => t.2.2) hinj
+      subst e1 e2
+      obtain ⟨k, hk1, hrest, hge, _, _⟩ := (asciiGreedyScan_spec cfg ns (h.drop (st + 1)) (st + 1) (fun c hc => hn c (by simp [hc]))).2 ge' rest hg
+      -- `rest` is the haystack from the greedy end on
+      have hrest' : rest = h.drop ge' := by rw [hrest, List.drop_drop, hge]
+      obtain ⟨_, _, hbefore⟩ := findIdx_some _ _ st hf
+      refine C04_window_is_full_matrix cfg ext .ascii h n0 ns st e nlast hpp (by omega) s3 hl ?_ ?_
+      · intro x hx
+        have hxh : x ∈ h := List.mem_of_mem_take hx
+        have hx' : x ∈ (h.take (h.length - (n0 :: ns).length + 1)).take st := by
+          rw [List.take_take]
+          have hlt := (findIdx_some _ _ st hf).1
+          rw [List.length_take] at hlt
+          have : min st (h.length - (n0 :: ns).length + 1) = st := by omega
+          rw [this]; exact hx
+        have hne := hbefore x hx'
+        rw [hcn x hxh]
+        intro heq
+        rw [(asciiEq_iff cfg n0 x (hn n0 (by simp))).mpr heq] at hne
+        cases hne
+      · intro x hx
+        have hxh : x ∈ h := List.mem_of_mem_drop hx
+        rw [hcn x hxh]
+        intro heq
+        have hx1 : asciiEq cfg.ignoreCase nlast x = true := (asciiEq_iff cfg nlast x hnl).mpr heq
+        rw [hl] at e3
+        simp only [Option.getD_some] at e3
+        unfold rfindIdx at e3
+        cases hr : findIdx (asciiEq cfg.ignoreCase nlast) rest.reverse with
+        | none =>
+          rw [hr] at e3
+          simp only [Option.map_none, Nat.add_zero] at e3
+          -- the last character does not occur behind the greedy end at all
+          have hall := findIdx_none _ _ hr
+          have hxr : x ∈ rest := by rw [hrest', e3]; exact hx
+          have := hall x (List.mem_reverse.mpr hxr)
+          rw [hx1] at this; cases this
+        | some p =>
+          rw [hr] at e3
+          simp only [Option.map_some] at e3
+          have e3' : ge' + (rest.length - 1 - p + 1) = e := e3
+          have hafter := findIdx_reverse_none_after _ rest p hr
+          have hpl : p < rest.length := by have := (findIdx_some _ _ p hr).1; rwa [List.length_reverse] at this
+          have hxr : x ∈ rest.drop (rest.length - p) := by
+            have hidx : ge' + (rest.length - p) = e := by
+              have : rest.length - 1 - p + 1 = rest.length - p := by omega
+              rw [← this]; exact e3'
+            have hd : rest.drop (rest.length - p) = h.drop e := by
+              rw [← hidx]
+              generalize rest.length - p = m
+              rw [hrest', List.drop_drop]
+            rw [hd]; exact hx
+          have := hafter x hxr
+          rw [hx1] at this; cases this
+
+/-! ### at the entry point -/
+
+/-- **`fuzzy_match` on a code-point haystack, matrix path** (needle of at least two characters, window wider than the
+    needle, scratch layout fits the slab): the result is the two-matrix recurrence evaluated on the full matrix -/
+theorem C04_fuzzy_is_full_matrix_unicode (cfg : Cfg) (ext : Ext) (nrep : Rep) (h : List Nat) (n0 n1 : Nat) (ns : List Nat) (start e : Nat)
+    (hpp : cfg.preferPrefix = false) (hlen : (n0 :: n1 :: ns).length < h.length)
+    (hp : prefilterNonAscii cfg h (n0 :: n1 :: ns) false = some (start, e))
+    (hw : (n0 :: n1 :: ns).length ≠ e - start) (hfit : slabFits (charSize .unicode) (e - start) (n0 :: n1 :: ns).length = true) :
+    fuzzyMatch cfg ext .unicode nrep h (n0 :: n1 :: ns) = optimalDP cfg ext .unicode h (n0 :: n1 :: ns) 0 h.length := by
+  rw [← C04_window_lossless_unicode cfg ext h n0 n1 ns start e hpp hp]
+  unfold fuzzyMatch
+  have h1 : ¬ ((n0 :: n1 :: ns).length > h.length) := by omega
+  have h2 : ¬ ((n0 :: n1 :: ns).length = h.length) := by omega
+  simp only [h1, if_false, List.isEmpty_cons, Bool.false_eq_true, h2, hp, hw]
+  unfold fuzzyOptimal
+  simp only [hfit, if_true]
+
+/-- **`fuzzy_match` on an ASCII haystack, matrix path** -/
+theorem C04_fuzzy_is_full_matrix_ascii (cfg : Cfg) (ext : Ext) (h : List Nat) (n0 n1 : Nat) (ns : List Nat) (start ge e : Nat)
+    (hpp : cfg.preferPrefix = false) (hasc : ∀ c ∈ h, c < 128) (hn : ∀ c ∈ n0 :: n1 :: ns, normAscii cfg c = c)
+    (hlen : (n0 :: n1 :: ns).length < h.length)
+    (hp : prefilterAscii cfg h (n0 :: n1 :: ns) false = some (start, ge, e))
+    (hw : (n0 :: n1 :: ns).length ≠ e - start) (hfit : slabFits (charSize .ascii) (e - start) (n0 :: n1 :: ns).length = true) :
+    fuzzyMatch cfg ext .ascii .ascii h (n0 :: n1 :: ns) = optimalDP cfg ext .ascii h (n0 :: n1 :: ns) 0 h.length := by
+  rw [← C04_window_lossless_ascii cfg ext h n0 (n1 :: ns) start ge e hpp hasc hn hp]
+  unfold fuzzyMatch
+  have h1 : ¬ ((n0 :: n1 :: ns).length > h.length) := by omega
+  have h2 : ¬ ((n0 :: n1 :: ns).length = h.length) := by omega
+  simp only [h1, if_false, List.isEmpty_cons, Bool.false_eq_true, h2, hp, hw]
+  unfold fuzzyOptimal
+  simp only [hfit, if_true]
+
+/-- the hypotheses are met and the window is a proper part of the haystack: `"xabxcbx"` / `"abc"` (window `[1, 5)`) -/
+example :
+    let cfg : Cfg := { delims := [47, 44, 58, 59, 124], white := 10, delim := 9, initial := .whitespace, normalize := true, ignoreCase := true, preferPrefix := false }
+    prefilterAscii cfg [120, 97, 98, 120, 99, 98, 120] [97, 98, 99] false = some (1, 5, 5) ∧
+    (optimalDP cfg (fun _ => default) .ascii [120, 97, 98, 120, 99, 98, 120] [97, 98, 99] 1 5).isSome = true := by
+  decide
 
 end NucleoVerif
